@@ -78,7 +78,7 @@ CLAIMED = {
     engine="driver-ai"),
  "C03": dict(
     category="other",
-    text="Clauses of 'the signature is the FIPS 204 Sign output for the drawn rnd', each decided for every key, message, context <= 255 and generator output from one abstract run per signing entry point (pure + 3 pre-hash functions): S1 exactly one 32-byte generator request fills rnd and nothing unmodelled is called (no other input); S2 M' is formatted as Alg. 2/4 (C06 rules R1-R3 on the sign side: domain byte, exact length byte, whole ctx, FIPS OIDs, digest lengths); S3 mu = H(tr|M',64), rho'' = H(K|rnd|mu,64) with K the key field other than rho and rnd the generator bytes; S4 the signing loop is peeled three times: ExpandMask instance r of iteration n absorbs rho''|IntegerToBytes(n*l+r,2), and the loop invariant carries kappa = 0 (mod l): every path back to the loop head adds exactly l; S5 c~ = first lambda/4 bytes of H(mu|w1Encode(w1)), SampleInBall absorbs all of c~; S6 the path condition at the sigEncode call bounds ||z||, ||r0||, ||ct0|| and the hint weight by exactly the Alg. 7 thresholds; S7 A-hat = ExpandA(sk.rho) with FIPS index bytes and order; S8 Decompose/HighBits/LowBits, MakeHint, mod+- equal their FIPS definitions on the whole domain (C15 engine); S9 the ring arithmetic of the loop body, symbolically (product symbols modulo q): w = NTT^-1(A-hat o NTT(y)), c-hat = NTT(c), c*s1 / c*s2 / c*t0 from the key precomputes with the Montgomery factor cancelling, z = y + c*s1, w1 = HighBits(w), LowBits(w - c*s2), MakeHint(-c*t0, w - c*s2 + c*t0). With C18 F the arithmetic steps of Sign_internal are accounted for. Still not decided (hence level 'other'): SampleInBall's shuffle as an algorithm (only its absorb list and output weight), the fill order inside the rejection samplers, HintBitPack and the 4/6-bit w1Encode layout beyond their byte ranges; trusted: hash implementations, NTT diagonalisation (mathematics).",
+    text="Clauses of 'the signature is the FIPS 204 Sign output for the drawn rnd', each decided for every key, message, context <= 255 and generator output from one abstract run per signing entry point (pure + 3 pre-hash functions): S1 exactly one 32-byte generator request fills rnd and nothing unmodelled is called (no other input); S2 M' is formatted as Alg. 2/4 (C06 rules R1-R3 on the sign side: domain byte, exact length byte, whole ctx, FIPS OIDs, digest lengths); S3 mu = H(tr|M',64), rho'' = H(K|rnd|mu,64) with K the key field other than rho and rnd the generator bytes; S4 the signing loop is peeled three times: ExpandMask instance r of iteration n absorbs rho''|IntegerToBytes(n*l+r,2), and the loop invariant carries kappa = 0 (mod l): every path back to the loop head adds exactly l; S5 c~ = first lambda/4 bytes of H(mu|w1Encode(w1)), SampleInBall absorbs all of c~; S6 the path condition at the sigEncode call bounds ||z||, ||r0||, ||ct0|| and the hint weight by exactly the Alg. 7 thresholds; S7 A-hat = ExpandA(sk.rho) with FIPS index bytes and order; S8 Decompose/HighBits/LowBits, MakeHint, mod+- equal their FIPS definitions on the whole domain (C15 engine); S9 the ring arithmetic of the loop body, symbolically (product symbols modulo q): w = NTT^-1(A-hat o NTT(y)), c-hat = NTT(c), c*s1 / c*s2 / c*t0 from the key precomputes with the Montgomery factor cancelling, z = y + c*s1, w1 = HighBits(w), LowBits(w - c*s2), MakeHint(-c*t0, w - c*s2 + c*t0). With C18 F the arithmetic steps of Sign_internal are accounted for. Still not decided (hence level 'other'): SampleInBall's shuffle as an algorithm (only its absorb list and output weight), the fill order inside the rejection samplers, HintBitPack's layout (S10 shows w1Encode is SimpleBitPack in the FIPS bit order; z packing is C08 R4+R5); trusted: hash implementations, NTT diagonalisation (mathematics).",
     design_ref="DESIGN.md §4 C03",
     note="Level 'other': necessary structural clauses, not the byte-for-byte equality. Quick = ML-DSA-44 and -65 (K != L is needed to separate kappa += l from += k), thorough = all three. Trusted: abstract interpreter soundness, hash model.",
     technique="abstract interpretation over monomorphic MIR: symbolic hash absorb lists, generator probes, loop peeling + congruence invariants, path facts on tracked call results; piecewise-affine kernel exactness",
